@@ -70,6 +70,15 @@ EXPRS = {
                                [G.P("rows.items.items.value")], ["rows"]),
     "child.value+readd": ("child.value", [G.P("child.value")],
                           ["child", "readd"]),
+    # deletion of an observed link (resets it to its default); the number
+    # of calls at the deletion itself is not constrained, tracking after it is
+    "child.value+del": ("child.value", [G.P("child.value")],
+                        ["child", "del"]),
+    "kids.items.value+del": ("kids.items.value",
+                             [G.P("kids.items.value")], ["kids", "del"]),
+    "child.kids.items.value+del": ("child.kids.items.value",
+                                   [G.P("child.kids.items.value")],
+                                   ["child", "kids", "del"]),
     "child.*": ("child.*", [G.P("child.*")], ["child", "extra"]),
     "*": ("*", [G.P("*")], ["extra", "child"]),
     "kids.items": ("kids.items", [G.P("kids.items")], ["kids"]),
@@ -188,6 +197,8 @@ def check_step(ctx, w, ev, hist, tag):
                     "mutated container, got %r" % (kind, c))
         else:
             ctx.outcome("step-silent-colon")
+    elif subject[0] == "del":
+        ctx.outcome("step-del")
     elif subject[0] == "read":
         if calls:
             bad("default-read-call", "materialising a default called the "
